@@ -150,10 +150,10 @@ static void check_line(pt s, pt e, sink& sk) {
         if (ax || ay) {
             ll cross = (ll)(p.y - s.y) * dx - (ll)(p.x - s.x) * dy;
             ll major = (ll)std::max(ax, ay);
-            // the known residual of the (|dy|+1)/(|dx|+1) slope stays below 1.1 px (measured: max 1.0526);
+            // the known residual of the (|dy|+1)/(|dx|+1) slope stays below 1.5 px (measured: max 1.05 on [-12,12]^2, 1.11 on [-24,24]^2);
             // anything further away is a different defect and gets its own key
-            if (std::llabs(cross) * 10 > major * 11)
-                V("line.minor-dist-over-1.1." + cls, [&] { return vh::cat(what(), " point #", i, " ", ps(p), " is ", (double)std::llabs(cross) / (double)major, " pixels from the ideal segment along the minor axis"); });
+            if (std::llabs(cross) * 2 > major * 3)
+                V("line.minor-dist-over-1.5." + cls, [&] { return vh::cat(what(), " point #", i, " ", ps(p), " is ", (double)std::llabs(cross) / (double)major, " pixels from the ideal segment along the minor axis"); });
             else if (std::llabs(cross) > major)
                 V("line.minor-dist." + cls, [&] { return vh::cat(what(), " point #", i, " ", ps(p), " is ", (double)std::llabs(cross) / (double)major, " pixels from the ideal segment along the minor axis"); });
         }
